@@ -224,7 +224,9 @@ def oracle(d, rc):
         if jl and jl[-1].startswith("HUNG"):
             where = jl[-1].split("\t")[1]
             vid = where[1:].split(".")[0]
-            if where[0] == "P" or verdict_of.get(vid) == "prop":
+            if where[0] == "X":
+                mk("expiry-sweep-hung-" + vid, [], "one pass of the local_deletion expiry sweep on the live node's store does not return (15 s): the apply loop hangs behind it", extra=dict(note="replay the history of this run; the sweep needs expired keys of several data types"))
+            elif where[0] == "P" or verdict_of.get(vid) == "prop":
                 mk("apply-hung-" + vid, [vid] if where[0] != "P" else [], "ApplyRaftRequest does not return (15 s) on a vector the leader accepted")
             else:
                 mk("sandbox-hung-" + vid, [vid], "ApplyRaftRequest does not return (15 s) on a vector fed directly to apply (the leader rejected it)")
@@ -317,7 +319,7 @@ def run(ctx):
         for i, p in enumerate(sorted(glob.glob(os.path.join(vlib.VERIF, "corpus", "C11", "*.tsv")))):
             pol = " -policy wait_compact" if os.path.basename(p).startswith("wc-") else ""
             jobs.append(("corpus-" + os.path.basename(p)[:-4], "-replay %s -port %d%s" % (p, pbase + 3 * len(jobs), pol)))
-        nproc, n = (4, 4000) if quick else (12, 60000)
+        nproc, n = (4, 4000) if quick else (12, 25000)
         for i in range(nproc):
             eng = "mem" if (quick or i % 3 != 2) else "pebble"
             pol = "wait_compact" if i % 2 == 1 else "local_deletion"
